@@ -2,7 +2,8 @@
    never share state with its original; what the theorems state is fidelity: same uids element for element, structural
    invariants (parent links naming elements of the copy), names, self-closing flags, text, and serialisation. *)
 From AHP Require Import Model.Base Model.Str Model.Attr Model.Dom Model.Serial Model.Search Model.Index Model.Observe
-     Proofs.AttrProofs Proofs.DomProofs Proofs.IndexProofs Proofs.ObserveProofs Proofs.CodecProofs Proofs.CloneProofs.
+     Proofs.AttrProofs Proofs.DomProofs Proofs.IndexProofs Proofs.ObserveProofs Proofs.CodecProofs Proofs.CloneProofs Proofs.IndexedParserProofs Proofs.FixPointProofs.
+From AHP Require Import Model.Parser.
 
 Theorem C17_uids : forall t p, uids_of (unpickle p t) = uids_of t.
 Proof. exact unpickle_uids. Qed.
@@ -25,6 +26,10 @@ Theorem C17_built_faithful : forall s, Built s -> AttrFaithful s.
 Proof. exact Built_faithful. Qed.
 Theorem C17_plain_attribute_fidelity : forall s, PlainStore s -> fst (clone_attrs s) = s.
 Proof. exact PlainStore_clone. Qed.
+(* hence: every parsed document whose style declarations are non-degenerate comes back from pickle with the identical serialisation *)
+Theorem C17_parsed_documents : forall cls ts1 ts2 s root p, Forall tok_attrs_ok ts1 -> Forall tok_attrs_ok ts2 ->
+  feed cls ts1 ts2 = POk s -> tree_of s = Some root -> outer_html (unpickle p root) = outer_html root.
+Proof. exact parsed_unpickle_html. Qed.
 Theorem C17_clone : forall u t, bs_ (clone_node u t) = [BText ""] /\ tuid (clone_node u t) = u /\ name (hd_ (clone_node u t)) = name (hd_ t)
   /\ sc (hd_ (clone_node u t)) = sc (hd_ t) /\ parent (hd_ (clone_node u t)) = None /\ owner (hd_ (clone_node u t)) = None
   /\ attrs (hd_ (clone_node u t)) = fst (clone_attrs (attrs (hd_ t))).
